@@ -3,10 +3,14 @@ package props
 import (
 	"bytes"
 	"fmt"
+	"sync"
+	"time"
 
 	ws "github.com/gorilla/websocket"
 
 	"verif/internal/core"
+	"verif/internal/gen"
+	"verif/internal/wire"
 	"verif/internal/xport"
 )
 
@@ -61,6 +65,10 @@ func runC17(ctx *core.Ctx, out *core.Out) {
 				}
 				chunks = append(chunks, xport.Rechunk(st.Bytes[k:], r.Intn(xport.NChunkStyles), r)...)
 				nc := xport.New(chunks)
+				// one combination in 48: the client stays silent after S (reads block), as a
+				// request/response client does; complete messages must still be delivered
+				blocking := (k*36+ctx.Idx)%48 == 7
+				nc.Block = blocking
 				br := prefilledReader(nc, bs, k > 0)
 				w := newFakeRW(nc, br, 4096)
 				u := &ws.Upgrader{ReadBufferSize: rbs, EnableCompression: comp}
@@ -74,8 +82,62 @@ func runC17(ctx *core.Ctx, out *core.Out) {
 					out.Inconcl(fmt.Sprintf("set-up handshake failed: %v", err))
 					continue
 				}
+				if blocking {
+					if !c17ReadBlocking(out, c, nc, exp, st, d, fail) {
+						return
+					}
+					continue
+				}
 				if !c17Read(out, c, exp, st, d, fail, r.Intn(2)) {
 					return
+				}
+			}
+		}
+	}
+	// --- tiny streams wholly (or almost wholly) inside the hijacked buffer, client silent
+	// afterwards: the hand-over from the hijacked buffer to the socket must not wait
+	// for bytes that will never come
+	for _, psize := range []int{0, 1, 2, 5, 7, 20} {
+		tiny := &Stream{}
+		f := wire.Frame{Fin: true, Op: 1 + psize%2, Masked: true, Key: maskKey(r), Payload: r.Payload(gen.PText, psize)}
+		tiny.Frames = []wire.Frame{f}
+		tiny.Events = []Ev{{Kind: f.Op, Data: f.Payload}}
+		if psize == 5 {
+			pf := wire.Frame{Fin: true, Op: 9, Masked: true, Key: maskKey(r), Payload: []byte("p")}
+			tiny.Frames = append(tiny.Frames, pf)
+			tiny.Events = append(tiny.Events, Ev{Kind: 9, Data: pf.Payload, First: 1, Last: 1})
+		}
+		tiny.finish()
+		texp := tiny.DataEvents()
+		failT := func(sig, what string, d map[string]interface{}) {
+			d["stream"] = tiny.Summary()
+			d["bytes"] = core.Trunc(tiny.Bytes, 100)
+			out.Violate("C17:"+sig, what, d)
+		}
+		for k := 0; k <= len(tiny.Bytes); k++ {
+			for _, bs := range []int{16, 256, 4096} {
+				for _, rbs := range []int{0, 1, 256, 4096} {
+					out.EvalH(core.Hash(string(tiny.Bytes))^uint64(k)<<40^uint64(bs)<<20^uint64(rbs)^3<<62, k > 0)
+					out.Count("server_splits", 1)
+					var chunks []xport.Chunk
+					if k > 0 {
+						chunks = append(chunks, xport.Chunk{Data: tiny.Bytes[:k]})
+					}
+					if k < len(tiny.Bytes) {
+						chunks = append(chunks, xport.Chunk{Data: tiny.Bytes[k:]})
+					}
+					nc := xport.New(chunks)
+					nc.Block = true
+					br := prefilledReader(nc, bs, k > 0)
+					c, err := (&ws.Upgrader{ReadBufferSize: rbs}).Upgrade(newFakeRW(nc, br, 4096), validRequest(someKey), nil)
+					if err != nil {
+						out.Inconcl(fmt.Sprintf("set-up handshake failed: %v", err))
+						continue
+					}
+					d := map[string]interface{}{"side": "server", "split": k, "hijacked_reader_size": bs, "read_buffer_size": rbs}
+					if !c17ReadBlocking(out, c, nc, texp, tiny, d, failT) {
+						return
+					}
 				}
 			}
 		}
@@ -159,6 +221,70 @@ func c17Read(out *core.Out, c *ws.Conn, exp []Ev, st *Stream, d map[string]inter
 			fail("close-lost", fmt.Sprintf("stream ends with close %d but reads ended with %v", st.Events[n-1].Code, lastErr), d)
 			return false
 		}
+	}
+	return true
+}
+
+// c17ReadBlocking: the transport blocks once S is consumed (the client waits for
+// an answer). Every message of S must be delivered without any further byte.
+func c17ReadBlocking(out *core.Out, c *ws.Conn, nc *xport.Conn, exp []Ev, st *Stream, d map[string]interface{}, fail func(string, string, map[string]interface{})) bool {
+	var mu sync.Mutex
+	var got []Got
+	done := make(chan struct{})
+	go func() {
+		defer close(done)
+		for {
+			t, p, err := c.ReadMessage()
+			if err != nil {
+				return
+			}
+			mu.Lock()
+			got = append(got, Got{Type: t, Data: p})
+			mu.Unlock()
+		}
+	}()
+	ok := false
+	limit := time.Now().Add(10 * time.Second)
+wait:
+	for time.Now().Before(limit) {
+		mu.Lock()
+		n := len(got)
+		mu.Unlock()
+		if n >= len(exp) {
+			ok = true
+			break
+		}
+		select {
+		case <-done:
+			break wait
+		default:
+			time.Sleep(200 * time.Microsecond)
+		}
+	}
+	consumed := nc.Consumed()
+	mu.Lock()
+	deliveredWhileOpen := len(got) // what the application had before the transport was touched again
+	mu.Unlock()
+	nc.Close()
+	<-done
+	out.Count("blocking_client_cases", 1)
+	d["client_silent_after_stream"] = true
+	mu.Lock()
+	defer mu.Unlock()
+	if !ok && deliveredWhileOpen < len(exp) {
+		fail("message-withheld-until-more-bytes-arrive", fmt.Sprintf("the client sent %d complete messages and then waits; only %d were delivered within 10 s although %d of %d bytes had been handed to the library (%d were delivered once the transport was closed)", len(exp), deliveredWhileOpen, consumed, len(st.Bytes), len(got)), d)
+		return false
+	}
+	if len(got) < len(exp) {
+		fail("message-lost", fmt.Sprintf("only %d of %d messages were delivered", len(got), len(exp)), d)
+		return false
+	}
+	for i := range exp {
+		if got[i].Type != exp[i].Kind || !bytes.Equal(got[i].Data, exp[i].Data) {
+			fail("message-corrupted", fmt.Sprintf("message %d after the handshake differs from what the peer sent", i), d)
+			return false
+		}
+		out.Count("messages_delivered", 1)
 	}
 	return true
 }
